@@ -183,13 +183,13 @@ def check_menu(mods, ref, opts, ctx, canary=False, history=False):
     return obl
 
 
-def check_marinate(mods, ref, ctx):
+def check_marinate(mods, ref, ctx, name='plt'):
     mod = mods['amr_kitchen.marinate']
     fs = SymFS()
-    ref.write_symfs(fs, '/work/plt')
+    ref.write_symfs(fs, '/work/' + name)
     obl = Obl(ctx)
     old = sys.argv
-    sys.argv = ['marinate', 'plt']
+    sys.argv = ['marinate', name]
     try:
         with patch.Patched(mods, fs, stubs={'amr_kitchen.plotfile_cooker': {'float': sym_float}}), common.quiet():
             try:
@@ -197,17 +197,17 @@ def check_marinate(mods, ref, ctx):
             except Exception as e:
                 obl.fail('marinate raised %s: %s' % (type(e).__name__, str(e)[:100]))
                 return obl
-            node = fs.lookup('/work/plt.pkl')
+            node = fs.lookup('/work/%s.pkl' % name)
             if node is None:
-                obl.fail('marinate wrote no plt.pkl (cwd holds %s)' % fs.listdir('/work'))
+                obl.fail('marinate wrote no %s.pkl (cwd holds %s)' % (name, fs.listdir('/work')))
                 return obl
             try:
-                with fs.open('/work/plt.pkl', 'rb') as f:
+                with fs.open('/work/%s.pkl' % name, 'rb') as f:
                     pck2 = pickle.load(f)
             except Exception as e:
                 obl.fail('the marinated reader does not unpickle: %s: %s' % (type(e).__name__, str(e)[:100]))
                 return obl
-            pck = mods['amr_kitchen.plotfile_cooker'].PlotfileCooker('plt', maxmins=True)
+            pck = mods['amr_kitchen.plotfile_cooker'].PlotfileCooker(name, maxmins=True)
             for attr in ('fields', 'ndims', 'time', 'limit_level', 'geo_low', 'geo_high', 'dx', 'boxes'):
                 a, b = getattr(pck, attr), getattr(pck2, attr, None)
                 obl.holds(repr(np.asarray(a, dtype=object).tolist() if not isinstance(a, (dict, int, float)) else a) ==
@@ -308,6 +308,7 @@ def run_case(case):
               ('menu/default/history', lambda ctx: check_menu(mods, ref, (False, False), ctx, history=True)),
               ('menu/min_max/history', lambda ctx: check_menu(mods, ref, (True, False), ctx, history=True)),
               ('marinate', lambda ctx: check_marinate(mods, ref, ctx)),
+              ('marinate/plt00010.old', lambda ctx: check_marinate(mods, ref, ctx, name='plt00010.old')),     # a directory name with a dot of its own
               ('nonfinite', lambda ctx: check_nonfinite(mods, case, ctx))]
     for name, fn in checks:
         results, exhaustive, stats = core.explore(fn, max_paths=8)
